@@ -60,13 +60,61 @@ Definition dur_floor_ms (v : Z) : Z :=
   if v <? 2 ^ 64 then Z.max 0 v / 1000 else (v - 2 ^ 64) / 1000000.
 Definition dur_ms (v : Z) : Z := Z.min (dur_floor_ms v) u64_max.
 
-(* the builder (every route: error_fn(..).error_rate(r), error_rate(r).error_fn(..), the
-   setters in any order) clamps the rates; bit 0 of [flags] selects the injector kind, the
-   higher bits select the builder route in the harness and do not reach the configuration *)
+(* ---- the builder, as far as the error injector goes (src/config.rs) ----
+   Three builder types: ChaosConfigBuilder<NoErrorInjection> [BNone], ChaosConfigBuilderWithRate
+   [BWithRate r] (after error_rate() on the former; it has no error_rate() of its own and cannot be
+   built) and ChaosConfigBuilder<CustomErrorFn<F>> [BCustom r]. error_rate(r) clamps r;
+   error_fn(f) builds CustomErrorFn::new(f, rate) — which clamps again — with the rate configured
+   so far: 0.0 on BNone, the stored rate on BWithRate, and (fix 7904406: ConfiguredErrorRate) the
+   injector's rate on BCustom. Before that fix a second error_fn reset the rate to 0.0. *)
+Inductive bop := BRate (r : option Z) | BFn.
+Inductive bstate := BNone | BWithRate (r : option Z) | BCustom (r : option Z).
+Definition bstep (b : bstate) (o : bop) : bstate :=
+  match b, o with
+  | BNone, BRate r => BWithRate (clamp01 r)
+  | BNone, BFn => BCustom (clamp01 (Some 0))
+  | BWithRate _, BRate r => BWithRate (clamp01 r)      (* no such method: never produced by a route *)
+  | BWithRate r0, BFn => BCustom (clamp01 r0)
+  | BCustom _, BRate r => BCustom (clamp01 r)
+  | BCustom r0, BFn => BCustom (clamp01 r0)
+  end.
+Definition build (ops : list bop) : bstate := fold_left bstep ops BNone.
+Definition brate (b : bstate) : option Z :=
+  match b with BNone => Some 0 | BWithRate r => r | BCustom r => r end.
+Definition bcustom (b : bstate) : bool := match b with BCustom _ => true | _ => false end.
+
+(* the error_rate()/error_fn() calls of the harness's builder routes (harness/src/bin/c19.rs), in
+   order; [r] is the script's error rate, 1/2 and 1/4 are values a route sets first and overwrites *)
+Definition route_ops (route : Z) (r : option Z) : list bop :=
+  let half := Some (2 ^ 1073) in
+  let quarter := Some (2 ^ 1072) in
+  match route with
+  | 0 => [BFn; BRate r]
+  | 1 => [BRate r; BFn]
+  | 2 => [BRate r; BFn]
+  | 3 => [BFn; BRate r]
+  | 4 => [BRate r; BFn]
+  | 5 => [BRate half; BFn; BRate r]
+  | 6 => [BFn; BRate r]
+  | 7 => [BRate r; BFn]
+  | 8 => [BRate r; BFn; BFn]                          (* the error function replaced *)
+  | 9 => [BFn; BRate r; BFn]
+  | 10 => [BFn; BFn; BRate r]
+  | 11 => [BRate half; BFn; BRate r; BFn; BFn]
+  | 12 => [BRate quarter; BFn; BFn; BRate r]
+  | 13 => [BFn; BRate r; BFn; BFn]
+  | 14 => [BRate r; BFn; BFn]
+  | _ => [BFn; BRate r; BFn]
+  end.
+
+(* bit 0 of [flags] selects the injector kind, bits 1-4 the builder route; rates are clamped by the
+   setters; the other setters (latency rate, bounds, seed, name, listeners) are last-wins on every
+   builder type and reach the configuration unchanged whatever their position *)
 Definition mk_config (flags ebits lbits minv maxv : Z) : config :=
   let inj := flags mod 2 in
-  {| custom := negb (inj =? 0);
-     erate := if inj =? 0 then Some 0 else clamp01 (f64_val ebits);
+  let b := build (if inj =? 0 then [] else route_ops ((flags / 2) mod 16) (f64_val ebits)) in
+  {| custom := bcustom b;
+     erate := brate b;
      lrate := clamp01 (f64_val lbits);
      min_ms := dur_ms minv;
      max_ms := dur_ms maxv |}.
@@ -227,7 +275,7 @@ Fixpoint decisions (c : config) (n : nat) (st : list Z) : list decision * list Z
 (* ---- script interface ----
    script = [flags; error_rate bits; latency_rate bits; min_latency; max_latency; seed;
              tail_ms; n; (gap_ms, ik, inner_val)*n] ++ oracle (the logged draw values)
-   trace  = [3; per request 15 ints; number of draws consumed; the draws consumed] *)
+   trace  = [7; per request 15 ints; number of draws consumed; the draws consumed] *)
 Definition pad3 (l : list Z) : list Z :=
   [nth 0 l (-1); nth 1 l (-1); nth 2 l (-1)].
 
@@ -261,4 +309,4 @@ Definition run_script (s : list Z) : list Z :=
   let cs := calls 0 0 qs in
   let (os, _) := run_polls c t_end (polls cs [] 0) oracle in
   let bits := flat_map (fun po => d_bits (o_dec (snd po))) os in
-  [3] ++ flat_map (enc_call os) cs ++ [Z.of_nat (length bits)] ++ bits.
+  [7] ++ flat_map (enc_call os) cs ++ [Z.of_nat (length bits)] ++ bits.
